@@ -60,6 +60,8 @@ SELF_ATTR_CALLS = {
     ("cssRules", "append"): ("write", "_cssRules"),      # cssRules.append is rebound to self.insertRule
     ("parentStyleSheet", "_resolveImport"): ("calltemp", None),   # fetches + decodes, may raise
 }
+# <self.attr>.<name> = v  that are plain attribute stores (no setter, cannot raise)
+SELF_ATTR_PLAIN = {("styleSheet", "title")}
 # attributes of self that cannot be observed through the object model (diagnostics only)
 UNOBSERVED = {"_Property__nametoken"}
 # property setters whose checks cannot fire at this call site (dead checks); reason recorded in the output
@@ -357,8 +359,22 @@ class Lin:
         if isinstance(node, ast.Name):
             return env.kinds.get(node.id)
         if isinstance(node, ast.Call) and self.is_ctor(node):
-            return "obj"
+            return "obj:" + self.is_ctor(node)
         return None
+
+    def plain_attr(self, kind, attr):
+        """is <fresh object of a known class>.<attr> = v a plain instance-attribute store (no setter runs)?"""
+        if not kind or not kind.startswith("obj:"):
+            return False
+        import css_parser.css as C
+        import css_parser.stylesheets as SS
+        import css_parser.util as U
+        for ns in (C, SS, U):
+            k = getattr(ns, kind[4:], None)
+            if inspect.isclass(k):
+                d = inspect.getattr_static(k, attr, None)
+                return not (hasattr(type(d), "__set__") or isinstance(d, property))
+        return False
 
     # -------------------------------------------------- inlining
     def inline(self, fn_node, defcls, env, argkinds=None, bound_funcs=None, what=""):
@@ -617,7 +633,7 @@ class Lin:
         if sr is not None:
             fld = self.backing(env.cls, mangle(env.defcls, sr[0]))
             pre = ("Skip",)
-            if isinstance(t, ast.Attribute) and not t.attr.startswith("_"):
+            if isinstance(t, ast.Attribute) and not t.attr.startswith("_") and (sr[0], t.attr) not in SELF_ATTR_PLAIN:
                 pre = ("CallTemp",)       # public attribute of a sub-object: a setter that may raise
             return Seq(pre, self.write(fld))
         lr = local_root(t)
@@ -627,6 +643,8 @@ class Lin:
                 pre = ("CallTemp",) if isinstance(t, ast.Attribute) and not t.attr.startswith("_") else ("Skip",)
                 return Seq(pre, self.write(kind[6:]))
             if isinstance(t, ast.Attribute) and not t.attr.startswith("_"):
+                if isinstance(t.value, ast.Name) and self.plain_attr(kind, t.attr):
+                    return ("Skip",)
                 return ("CallTemp",)      # temporary.cssText = ... etc.
             return ("Skip",)
         raise Refused("line %d: assignment target not understood" % t.lineno)
@@ -746,7 +764,7 @@ class Lin:
         if isinstance(test, ast.Call) and isinstance(test.func, ast.Name) and test.func.id == "isinstance" \
                 and len(test.args) == 2 and isinstance(test.args[0], ast.Name) \
                 and isinstance(test.args[1], ast.Name) and test.args[1].id in ("string_type", "str", "basestring"):
-            if env.kinds.get(test.args[0].id) == "obj":
+            if (env.kinds.get(test.args[0].id) or "").startswith("obj"):
                 return False
         return None
 
